@@ -291,6 +291,11 @@ def unlha (dec : Bytes → Bool → Bytes → Nat → Option Bytes) (f : Bytes) 
   | none => none
   | some i => lhaWalk dec (f.length + 1) (f.drop i)
 
+/-- the pipeline environment with the LHA container modelled: `decrunch` hands "lha" files to `unlha`
+    (`lhaDec` stands for the LH1/4/5/6/7, LZ5/LZS, PM1/2 decoders and the MacBinary pass-through) -/
+def Env.withLha (env : Env) (lhaDec : Bytes → Bool → Bytes → Nat → Option Bytes) : Env :=
+  { env with other := fun n f => if n = "lha" then unlha lhaDec f else env.other n f }
+
 /-! ## writer: `-lh0-` members with level 0 / 1 / 2 headers -/
 
 structure LhaMember where
